@@ -285,6 +285,56 @@ pub fn project_config(state: &ConfigState, ad: &Addrs, listeners: &[String]) -> 
     json!({"lst": lst, "cl": cl, "hc": hc, "hf": hf, "tf": tf, "be": be})
 }
 
+/// The answer of a worker to QueryClusterById(c) as a `view` trace event in the spec's terms.
+pub fn view_event(
+    run: u64,
+    c: &str,
+    infos: &[sozu_command_lib::proto::command::ClusterInformation],
+    ad: &Addrs,
+) -> Value {
+    let Some(ci) = infos.first() else {
+        return json!({"ev": "view", "run": run, "c": c, "present": false, "hc": false, "hf": [], "tf": [], "be": []});
+    };
+    let hc = ci.configuration.as_ref().map(|x| x.health_check.is_some()).unwrap_or(false);
+    let mut hf: Vec<String> = ci
+        .http_frontends
+        .iter()
+        .map(|f| {
+            let addr: SocketAddr = f.address.into();
+            FDEF.iter()
+                .find(|d| f.cluster_id.as_deref() == Some(d.1) && addr == ad.listener(d.2).1 && f.hostname == hostname(d.3))
+                .map(|d| d.0.to_string())
+                .unwrap_or_else(|| format!("?{}", f.hostname))
+        })
+        .collect();
+    hf.sort();
+    let mut tf: Vec<String> = ci
+        .tcp_frontends
+        .iter()
+        .map(|f| {
+            let addr: SocketAddr = f.address.into();
+            TDEF.iter()
+                .find(|d| d.1 == f.cluster_id && ad.listener(d.2).1 == addr)
+                .map(|d| d.0.to_string())
+                .unwrap_or_else(|| format!("?{}", f.cluster_id))
+        })
+        .collect();
+    tf.sort();
+    let mut be: Vec<String> = ci
+        .backends
+        .iter()
+        .map(|b| {
+            let addr: SocketAddr = b.address.into();
+            BDEF.iter()
+                .find(|d| d.0 == b.backend_id && d.1 == b.cluster_id && ad.slot(d.2) == addr)
+                .map(|d| d.0.to_string())
+                .unwrap_or_else(|| format!("?{}", b.backend_id))
+        })
+        .collect();
+    be.sort();
+    json!({"ev": "view", "run": run, "c": c, "present": ci.configuration.is_some(), "hc": hc, "hf": hf, "tf": tf, "be": be})
+}
+
 /// Sort every array of a JSON value (sets printed by TLC come in arbitrary order).
 pub fn normalise(v: &Value) -> Value {
     match v {
@@ -308,7 +358,7 @@ pub struct MockBackends {
 }
 
 fn serve(mut s: TcpStream, id: String) {
-    let _ = s.set_read_timeout(Some(Duration::from_millis(2500)));
+    let _ = s.set_read_timeout(Some(Duration::from_secs(20)));
     let _ = s.set_nodelay(true);
     let mut buf: Vec<u8> = Vec::new();
     let mut tmp = [0u8; 2048];
